@@ -122,25 +122,30 @@ def shown():
     return None
 
 
+def _find(rx, text, flags=0):
+    m = re.search(rx, text, flags=flags)
+    return m.group(1) if m else "<damaged: " + text[:60] + ">"
+
+
 def occurrences(layout):
     """(file, kind, text) for every constructed occurrence, read back from the work tree."""
     out = []
     tree = world.read_tree(".")
     if layout == "calver":
-        t = tree["README.md"].decode()
+        t = tree["README.md"].decode("utf-8", "replace")
         m = re.search(r"^install ver=(.*); \(pep=(.*);\) today$", t, flags=re.M)
         out.append(("README.md", "version", m.group(1) if m else "<line damaged: " + t.split("\n")[1] + ">"))
         out.append(("README.md", "pep440", m.group(2) if m else "<line damaged>"))
-        out.append(("src/__init__.py", "version", re.search(r'__version__ = "(.*)"', tree["src/__init__.py"].decode()).group(1)))
+        out.append(("src/__init__.py", "version", _find(r'__version__ = "(.*)"', tree["src/__init__.py"].decode("utf-8", "replace"))))
     elif layout == "semver":
-        out.append(("setup.py", "pep440", re.search(r'version="(.*)"\)', tree["setup.py"].decode()).group(1)))
-        out.append(("docs/index.md", "version", re.search(r"release (.*) of", tree["docs/index.md"].decode()).group(1)))
-        out.append(("docs/series.md", "major.minor", re.search(r"the (.*) series", tree["docs/series.md"].decode()).group(1)))
+        out.append(("setup.py", "pep440", _find(r'version="(.*)"\)', tree["setup.py"].decode("utf-8", "replace"))))
+        out.append(("docs/index.md", "version", _find(r"release (.*) of", tree["docs/index.md"].decode("utf-8", "replace"))))
+        out.append(("docs/series.md", "major.minor", _find(r"the (.*) series", tree["docs/series.md"].decode("utf-8", "replace"))))
     else:
         for f in ("pkg/a.txt", "pkg/b.txt"):
-            out.append((f, "version", re.search(r"v=([^\r\n]*)", tree[f].decode()).group(1)))
-        out.append(("bumpver.toml", "version", re.search(r'^release = "(.*)"', tree["bumpver.toml"].decode(), flags=re.M).group(1)))
-    cfg = re.search(r'current_version = "(.*)"', tree["bumpver.toml"].decode()).group(1)
+            out.append((f, "version", _find(r"v=([^\r\n]*)", tree[f].decode("utf-8", "replace"))))
+        out.append(("bumpver.toml", "version", _find(r'^release = "(.*)"', tree["bumpver.toml"].decode("utf-8", "replace"), flags=re.M)))
+    cfg = _find(r'current_version = "(.*)"', tree["bumpver.toml"].decode("utf-8", "replace"))
     out.append(("bumpver.toml", "version", cfg))
     return out
 
